@@ -75,3 +75,17 @@ Example toy_sign :
   recover_rsv z7 t_eqb t_add A0 t_smul A1 7 t_x t_lift (rules_libsecp 7) 2 5 true 5 = Some (t_smul 3 A1) /\
   recover_rsv z7 t_eqb t_add A0 t_smul A1 7 t_x t_lift (rules_k256 7) 2 5 true 5 = None.
 Proof. vm_compute. repeat split; reflexivity. Qed.
+
+(* deterministic signing with a nonce oracle that separates a digest >= n from its residue: the
+   "reduce first" (k256) and "raw" (libsecp256k1) variants then produce different signatures *)
+Definition toy_nonce (d x : Z) : Z := if x <? 7 then 3 else 1.
+Example toy_sign_det_differs_ge_n :
+  bytes_z [8%N] >= 7 /\
+  sign_det z7 t_eqb A0 t_smul A1 7 t_x t_odd toy_nonce true 3 [8%N] <>
+  sign_det z7 t_eqb A0 t_smul A1 7 t_x t_odd toy_nonce false 3 [8%N].
+Proof. split; [vm_compute; discriminate|]. vm_compute. discriminate. Qed.
+(* both variants do produce a signature (the difference is not a failure of one of them) *)
+Example toy_sign_det_both_sign :
+  sign_rsv z7 t_eqb A0 t_smul A1 7 t_x t_odd 3 (toy_nonce 3 (8 mod 7)) (8 mod 7) = Some (3, 1, false) /\
+  sign_rsv z7 t_eqb A0 t_smul A1 7 t_x t_odd 3 (toy_nonce 3 8) (8 mod 7) = Some (1, 3, true).
+Proof. vm_compute. split; reflexivity. Qed.
